@@ -19,7 +19,7 @@ META = {
                    "limits and tries / commits the same `x - step`; limits are converted to solver space with the inverse of the weight "
                    "scaling; the max-step clip is applied to the full-length step and never decides about the running copy by reading "
                    "the stale original; the masked solve writes into a zero vector with the same masks on matrix and right-hand side, "
-                   "disabled targets are zeroed and nothing un-zeroes them afterwards. Compared as symbolic terms after helper inlining.",
+                   "disabled targets are zeroed and nothing un-zeroes them afterwards. Compared as symbolic terms after helper inlining. The solver is restarted from the current knobs whenever they differ from its x; _set_state acts per selection kind under its own test; the max-step clip shrinks, when the step exceeds the maximum.",
     "decides": "who may write knobs and under which guard, pairing of temporary state changes, shape of limit/step clipping, mask plumbing",
     "not_decided": "the bounds as numeric facts for all inputs and weights",
     "assumptions": ["Vary.active is the only notion of a disabled knob"],
